@@ -234,11 +234,24 @@ def run(ctx):
                 art.mstart, art.mend = 2, 9
                 pp = _types.SimpleNamespace(rules=tuple([rn] * k), prod=(art,))
                 txt = "x" * 40
-                pr = sc._model.predict_log_proba([[str(r) for r in pp.rules]])[0]
+                try:
+                    pr = sc._model.predict_log_proba([[str(r) for r in pp.rules]])[0]
+                except Exception as ex:  # noqa: BLE001
+                    disagreements += 1
+                    ctx.violation({"stage": "score-composition", "clause": "model-raised"}, "%s x %d: predict_log_proba raised %s" % (rn, k, type(ex).__name__),
+                                  {"stage": "composition", "rule": rn, "repeats": k, "exc": repr(ex)[:200]})
+                    continue
                 want_f = (pr[1] - pr[0]) + 1000 * math.log(len(art) / len(txt))
                 want_s = (pr[1] - pr[0]) + math.log((art.mend - art.mstart) / len(txt))
-                got_f = sc.score_final(txt, datetime(2018, 3, 7, 12, 43), pp, art)
-                got_s = sc.score(txt, datetime(2018, 3, 7, 12, 43), pp)
+                try:
+                    got_f = sc.score_final(txt, datetime(2018, 3, 7, 12, 43), pp, art)
+                    got_s = sc.score(txt, datetime(2018, 3, 7, 12, 43), pp)
+                except Exception as ex:  # noqa: BLE001 - a scorer that raises on an extreme trace is an observation, not a harness failure
+                    got_f = got_s = float("nan")
+                    disagreements += 1
+                    ctx.violation({"stage": "score-composition", "clause": "scorer-raised"}, "%s x %d: the scorer raised %s" % (rn, k, type(ex).__name__),
+                                  {"stage": "composition", "rule": rn, "repeats": k, "exc": repr(ex)[:200]})
+                    continue
                 nx += 2
                 for kind, a, b in (("final-extreme-trace", got_f, want_f), ("score-extreme-trace", got_s, want_s)):
                     if not (math.isfinite(a) and abs(a - b) <= 1e-9 * max(1.0, abs(a))):
